@@ -96,6 +96,22 @@ func parseContainer(kind RK, b []byte) (ms []memberInfo, headerOK bool) {
 
 func c07Harness(cfg *Cfg) func(x *mc.Exec) {
 	corpus := containerCorpus(cfg.Seed, true)
+	// containers whose deflate data has literals and a match straddling the point where the decoder's 64 KiB output
+	// window is full (a packed literal+length entry is looked up exactly there): cut at every byte from there on
+	g := newStreamGen(cfg)
+	wfCut := map[string]int{}
+	for _, jl := range [][2]int{{0, 1}, {0, 2}, {1, 1}, {1, 2}, {2, 2}} {
+		wfS, wfName, wfAt := g.windowFillStreamAt(65536, jl[0], jl[1], 258, 17, 1)
+		wfP, _ := stdFlate(wfS)
+		gzw := append(append([]byte{0x1f, 0x8b, 8, 0, 0, 0, 0, 0, 0, 255}, wfS...), gzipTrailer(wfP)...)
+		wfCut["gzip-"+wfName] = 10 + wfAt
+		corpus = append(corpus, container{name: "gzip-" + wfName, kind: RK{Kind: "gzip", Multi: true}, bytes: gzw, payload: wfP, members: [][2]int{{0, len(gzw)}}})
+		if jl == [2]int{1, 2} {
+			zlw := append(append([]byte{0x78, 0x9c}, wfS...), zlibTrailer(wfP)...)
+			wfCut["zlib-"+wfName] = 2 + wfAt
+			corpus = append(corpus, container{name: "zlib-" + wfName, kind: RK{Kind: "zlib"}, bytes: zlw, payload: wfP})
+		}
+	}
 	pols := []env.ReadPolicy{env.PolicyAll, env.Policy4096, env.Policy7, env.Policy1}
 	nvals := 16
 	if cfg.Thorough {
@@ -120,6 +136,11 @@ func c07Harness(cfg *Cfg) func(x *mc.Exec) {
 		var positions []int
 		if long {
 			positions = []int{0, 1, 3, 9, 10, 11, 20, 100, 4095, 4096, n / 2, n - tl - 1, n - tl, n - 5, n - 1}
+			if at, ok := wfCut[c.name]; ok {
+				for p := at - 4; p < n-tl-1; p++ {
+					positions = append(positions, p)
+				}
+			}
 		} else {
 			for i := 0; i < n; i++ {
 				positions = append(positions, i)
